@@ -1,6 +1,7 @@
 """Implementation side of C01: a TextQueryBackend subclass generated from a configuration (every atom
 self-delimiting), conversion of a generated rule, serialisation of the post-processed condition tree
 and of the detection items (for the reference semantics)."""
+from impl.excname import exc_name
 import re
 from sigma.conversion.base import TextQueryBackend, Backend
 from sigma.conversion.state import ConversionState
@@ -411,9 +412,9 @@ def _outcome(f):
     try:
         return {"ok": f()}
     except SigmaError as e:
-        return {"exc": type(e).__name__, "sigma": True}
+        return {"exc": exc_name(e), "sigma": True}
     except Exception as e:
-        return {"exc": type(e).__name__, "sigma": False}
+        return {"exc": exc_name(e), "sigma": False}
 
 
 def _siblings(B):
